@@ -144,3 +144,80 @@ func verifH_C06_resolve() {
 	}
 	verifReach("end")
 }
+
+func init() {
+	verifRegister("C06_keys", verifH_C06_keys)
+}
+
+// H06-keys: equi-joins over key columns of every type mix. Tables l(k1, k2) and
+// r(k1, k2) with 1-2 rows each; every cell is, by choice, a symbolic small
+// integer, a symbolic one-byte string whose byte is a digit, or the two-byte
+// string of two symbolic digits - so that keys of different types, and
+// composite keys, can print alike ("7" and 7; ("1","23") and ("12","3")) without
+// being equal. ON is k1 = k1, or k1 = k1 AND k2 = k2; every join type. The
+// result is the relational definition as a multiset: values of different types
+// are never equal.
+func verifH_C06_keys() {
+	nl, nr := verifParam("nl", 1), verifParam("nr", 1)
+	composite := verifParam("composite", 1) == 1
+	jt := verifJoinTypes[verifChoice("jt", 3)]
+	cell := func(tag string) interface{} {
+		digit := func(t string) byte {
+			d := verifU8(t)
+			verifAssume(verifAnd(d >= '0', d <= '9'))
+			return d
+		}
+		switch verifChoice(tag+"kind", 3) {
+		case 0:
+			d := digit(tag + "i")
+			return int64(d - '0')
+		case 1:
+			return string([]byte{digit(tag + "s")})
+		default:
+			return string([]byte{digit(tag + "s1"), digit(tag + "s2")})
+		}
+	}
+	mk := func(name string, n int) *verifStubTable {
+		t := &verifStubTable{cols: []string{"k1", "k2"}}
+		for i := 0; i < n; i++ {
+			t.rows = append(t.rows, []interface{}{cell(name + "a"), cell(name + "b")})
+		}
+		return t
+	}
+	l, r := mk("l", nl), mk("r", nr)
+	rm := &verifRM{tables: map[string]*verifStubTable{"l": l, "r": r}}
+	cr := func(q, c string) sql.ColumnReference { return sql.ColumnReference{Qualifier: q, ColumnName: c} }
+	eq := func(a, b sql.ColumnReference) sql.Predicate {
+		return sql.Predicate{ComparisonPredicate: sql.ComparisonPredicate{LHS: a, CompOp: sql.EQ, RHS: b}}
+	}
+	var on interface{} = eq(cr("l", "k1"), cr("r", "k1"))
+	if composite {
+		on = sql.BooleanTerm{LHS: eq(cr("l", "k1"), cr("r", "k1")), RHS: eq(cr("l", "k2"), cr("r", "k2"))}
+	}
+	q := sql.Select{
+		SelectList: sql.SelectList{{ValueExpressionPrimary: sql.Asterisk{}}},
+		TableExpression: sql.TableExpression{FromClause: sql.FromClause{sql.QualifiedJoin{
+			LHS: sql.TableName{Name: "l"}, JoinType: jt, RHS: sql.TableName{Name: "r"}, JoinCondition: on}}},
+	}
+	rows, _, err := EvaluateSelect(q, rm)
+	verifAssert(err == nil, "select-ok")
+	if err != nil {
+		return
+	}
+	flag := func(t *verifStubTable) []verifFlagRow {
+		var out []verifFlagRow
+		for _, x := range t.rows {
+			out = append(out, verifFlagRow{x, true})
+		}
+		return out
+	}
+	ref := verifRefJoin(flag(l), flag(r), 2, 2, jt, func(row []interface{}) bool {
+		m := verifSame(row[0], row[2])
+		if composite {
+			m = verifAnd(m, verifSame(row[1], row[3]))
+		}
+		return m
+	})
+	verifMultisetEq(rows, ref, "keys/")
+	verifReach("end")
+}
